@@ -1311,9 +1311,9 @@ class Quantity(metaclass=QuantityMeta):
             except (TypeError, ValueError):
                 try:
                     amnt = Fraction(s_amount)
-                except (TypeError, ValueError):
+                except (TypeError, ValueError, ZeroDivisionError):
                     raise QuantityError(f"Can't convert '{s_amount}' to a "
-                                        "rational number.")
+                                        "rational number.") from None
             if len(parts) > 1:
                 s_sym = parts[1].strip()
                 try:
